@@ -38,7 +38,7 @@ struct Dev {
 };
 
 static void judge(const std::string& form, const Input& in, bool none_as_max, const std::vector<Bar>& expect, int top) {
-  std::string cfg = std::string(value_name()) + ":" + form;
+  std::string cfg = std::string(build_name()) + ":" + form;
   bj::object act = jinput(in);
   act["form"] = form;
   act["none_as_max"] = none_as_max;
@@ -137,7 +137,7 @@ int cases_main(int argc, char** argv) {
   bj::object forms, encs;
   for (auto& p : per_form) forms[p.first] = p.second;
   for (auto& p : per_enc) encs[p.first] = p.second;
-  bj::object o{{"kind", "summary"}, {"cfg", value_name()}, {"cases", n_cases}, {"subcases", n_sub}, {"evaluations", n_eval}, {"deviations", n_dev},
+  bj::object o{{"kind", "summary"}, {"cfg", build_name()}, {"cases", n_cases}, {"subcases", n_sub}, {"evaluations", n_eval}, {"deviations", n_dev},
                {"deviations_dropped", n_dropped}, {"skipped_after_repeated_crash", n_skipped}, {"pairs_reported", n_pairs}, {"zero_length_pairs_reported", n_zero_len},
                {"forms", forms}, {"encodings", encs}};
   std::fprintf(out, "%s\n", bj::serialize(o).c_str());
